@@ -22,11 +22,12 @@ RULE = ("Trees of circuits built by construction with add (grouped or not, nesti
         "distinct = distinct program JSON.")
 ASSUMPTIONS = [
     "only visible behaviour is compared (the index at which an ancilla is stored is free)",
-    "amplitude tolerance 1e-9; random unitary blocks make accidental coincidences measure-zero",
+    "amplitude tolerance 1e-6 (sin(theta) of a beam splitter with reflectivity within 1e-16 of 1 is only "
+    "accurate to ~1.5e-8); random unitary blocks make accidental coincidences measure-zero",
     "no photon in any loss mode at the output (lossy components present but heralded amplitudes "
     "are the lossless branch)",
 ]
-TOL = 1e-9
+TOL = 1e-6
 
 
 def compare(c, w, iseed, max_inputs=12, photons=(1, 2)):
